@@ -35,3 +35,26 @@ PBT_PROPERTY(merge_scale) {
     default: st ? c05::run_rec40_s(src, cfg) : c05::run_rec40_u(src, cfg); break;
     }
 }
+
+// ITERATOR / TYPE classes (see "storage / iterator kinds", gen_iters and run_iters in C05_merge.hpp): the statement
+// quantifies over sequences given by ANY random-access iterators and any element type. Inputs held in std::deque
+// (several 512-byte blocks, begin not at a block start), read through std::reverse_iterator over a vector / deque
+// stored back to front, or through an own strided iterator; output to deque / reverse / strided iterators; the
+// sequence of iterator pairs itself in a std::deque; element types that own memory (16-byte record with a heap cell
+// -> copy-based loser trees, record with a std::string -> pointer-based trees) besides the plain 8-byte record; a
+// comparator that owns a std::string, a std::vector and a std::function. Same entry points / algorithms, same oracle.
+PBT_PROPERTY(merge_iters) {
+    c05::Cfg cfg;
+    int type = (int)src.weighted({3, 2, 3}); // rec8 (trivial, copy trees), rech (owning, copy trees), recs (owning string, pointer trees)
+    cfg.entry = (int)src.range(0, 7);
+    cfg.alg = (int)src.range(0, 4);
+    cfg.desc = src.boolean();
+    cfg.pair = (int)src.weighted({5, 4, 3, 3, 2, 3, 3, 3});
+    cfg.iters = true;
+    const bool st = c05::entry_stable(cfg.entry);
+    switch (type) {
+    case 0: st ? c05::run_it_rec8_s(src, cfg) : c05::run_it_rec8_u(src, cfg); break;
+    case 1: st ? c05::run_it_rech_s(src, cfg) : c05::run_it_rech_u(src, cfg); break;
+    default: st ? c05::run_it_recs_s(src, cfg) : c05::run_it_recs_u(src, cfg); break;
+    }
+}
